@@ -95,6 +95,12 @@ impl<W> PDataWriter<W>
 where
     W: Write,
 {
+    /// Verification hook: public constructor (see `PDataWriter::new`).
+    #[cfg(dicom_rs_verif)]
+    pub fn verif_new(stream: W, presentation_context_id: u8, max_pdu_length: u32) -> Self {
+        Self::new(stream, presentation_context_id, max_pdu_length)
+    }
+
     /// Construct a new P-Data value writer.
     ///
     /// `max_pdu_length` is the maximum value of the PDU-length property.
@@ -439,6 +445,12 @@ pub mod non_blocking {
     where
         W: AsyncWrite + Unpin,
     {
+        /// Verification hook: public constructor (see `AsyncPDataWriter::new`).
+        #[cfg(dicom_rs_verif)]
+        pub fn verif_new(stream: W, presentation_context_id: u8, max_pdu_length: u32) -> Self {
+            Self::new(stream, presentation_context_id, max_pdu_length)
+        }
+
         /// Construct a new P-Data value writer.
         ///
         /// `max_pdu_length` is the maximum value of the PDU-length property.
